@@ -1,0 +1,33 @@
+//go:build verif
+
+package ntske
+
+// Verification hooks, compiled only with the build tag "verif". The provider reads
+// time.Now() directly; an external monitor of a running server cannot wait for days,
+// so VerifAge applies to the provider's state what the passage of d does to it.
+
+import "time"
+
+// VerifAge moves the generation time and the validity period of every key d into
+// the past.
+func (p *Provider) VerifAge(d time.Duration) {
+	p.mu.Lock()
+	defer p.mu.Unlock()
+	p.generatedAt = p.generatedAt.Add(-d)
+	for id, key := range p.keys {
+		key.Validity.NotBefore = key.Validity.NotBefore.Add(-d)
+		key.Validity.NotAfter = key.Validity.NotAfter.Add(-d)
+		p.keys[id] = key
+	}
+}
+
+// VerifKeys returns a snapshot of the keys the provider holds (valid or not).
+func (p *Provider) VerifKeys() []Key {
+	p.mu.Lock()
+	defer p.mu.Unlock()
+	keys := make([]Key, 0, len(p.keys))
+	for _, key := range p.keys {
+		keys = append(keys, key)
+	}
+	return keys
+}
